@@ -277,6 +277,10 @@ class Scenario:
                     strip_derived(self.tpl)
                 old_b, new_b, self.force = self._rebuild_binnings()
                 self.binnings = dict(old=old_b, new=new_b)
+                # whatever was being built, the next use may ask for any binning: also unbinned and EDGES_A
+                for label, b in (("unbinned", None), ("edgesA", (EDGES_A, "right"))):
+                    if b not in self.binnings.values():
+                        self.binnings[label] = b
                 if w == "rebuild":
                     cat = yaw.Catalog(os.path.join(self.tpl, "cat"), max_workers=1)
                     self._build(cat, old_b)
@@ -354,6 +358,17 @@ class Scenario:
         if v == "fewer_bins":
             return (EDGES_A, "right"), (EDGES_C, "right"), False
         raise ValueError(v)
+
+    def next_use_binnings(self) -> list[str]:
+        """Labels of the binnings the next use is tried with (one recovery child each)."""
+        if self.base not in ("build_trees", "rebuild", "first_open"):
+            return ["new"]
+        seen, out = [], []
+        for label in ("new", "old", "unbinned", "edgesA"):
+            if label in self.binnings and self.binnings[label] not in seen:
+                seen.append(self.binnings[label])
+                out.append(label)
+        return out
 
     @staticmethod
     def _build(cat, binning, force=False, max_workers=1):
@@ -474,16 +489,12 @@ class Scenario:
                 return dict(cls="SILENT_WRONG", outcome="metadata_mismatch", detail="; ".join(probs[:3]))
             if w in ("build_trees", "rebuild", "first_open"):
                 b = self.binnings[which]
+                # the next use is what a user does next through the public API: (re)use the trees for a
+                # binning and measure with them; only then are the cached trees themselves inspected
                 try:
                     self._build(cat, b)
-                    st = orc.tree_state(cat)
                 except Exception as err:  # noqa: BLE001
                     return dict(cls="ERROR", detail=f"build_trees({which}): {type(err).__name__}")
-                msg = orc.states_equal(self.fresh_trees[which], st)
-                if msg:
-                    return dict(cls="SILENT_WRONG", outcome="stale_trees", next_use=f"build_trees({which} binning)",
-                                detail=f"trees used for the {which} binning differ from freshly built ones: {msg}")
-                # and a measurement through the public API on the surviving caches
                 status, expect = self.fresh_meas[which]
                 if status == "ok":
                     try:
@@ -494,6 +505,14 @@ class Scenario:
                     if msg:
                         return dict(cls="SILENT_WRONG", outcome="wrong_measurement", next_use=f"measurement({which} binning)",
                                     detail=f"measurement with the {which} binning on the surviving cache differs from fresh caches: {msg}")
+                try:
+                    st = orc.tree_state(cat)
+                except Exception as err:  # noqa: BLE001
+                    return dict(cls="ERROR", detail=f"trees({which}): {type(err).__name__}")
+                msg = orc.states_equal(self.fresh_trees[which], st)
+                if msg:
+                    return dict(cls="SILENT_WRONG", outcome="stale_trees", next_use=f"build_trees({which} binning)",
+                                detail=f"trees used for the {which} binning differ from freshly built ones: {msg}")
             if w == "overwrite" and label == "old":
                 # behaves as never started: a measurement on it must equal fresh(old)
                 try:
@@ -588,7 +607,7 @@ def _run_parallel_case(case: dict) -> dict:
                          what=str(op[1]) if len(op) > 1 and op[0] == "fs" else "",
                          file=os.path.basename(str(op[2])).split("_")[0] if len(op) > 2 and op[0] == "fs" else "")
             verdicts = []
-            whichs = ["new", "old"] if sc.base == "rebuild" else ["new"]
+            whichs = sc.next_use_binnings()
             for which in whichs:
                 use_dir = snap
                 if len(whichs) > 1:
@@ -687,7 +706,7 @@ def run_case(case: dict) -> dict:
             if opsig["op"] == "pwrite":
                 probes["crash_in_hdf5_write"] = probes.get("crash_in_hdf5_write", 0) + 1
             verdicts = []
-            whichs = ["new", "old"] if sc.base == "rebuild" else ["new"]
+            whichs = sc.next_use_binnings()
             for which in whichs:
                 use_dir = work
                 if len(whichs) > 1:
